@@ -52,6 +52,7 @@ def generate(rng, tier):
 
 def judge(case, ir, mr):
     tags = []
+    mr, mt = LB.split(mr)
     if case.get('nobin'):
         tags.append('no-binary-run')
         det = f'-n -p -t {case["nobin"]}; files={LB.render(case)!r}'[:1500]
@@ -67,7 +68,7 @@ def judge(case, ir, mr):
                     'detail': f'model/spec assembles, the run without a binary image fails: {str(ir.get("msg"))[:200]}; ' + det}
         tags.append('spec:overlap' if mr.get('overlapSpec') else 'spec:disjoint')
         return {'verdict': Verdict.OK, 'nontrivial': mr.get('overlapSpec') is not None, 'tags': tags, 'detail': det[:300]}
-    bad, actual, det = LB.base_judge(case, ir, mr, tags)
+    bad, actual, det = LB.base_judge(case, ir, mr, tags, mt)
     ov = mr.get('overlapSpec')
     lines = mr.get('lines') or []
     occ = [l for l in lines if l['isByte'] and l['size'] > 0]
